@@ -1,4 +1,5 @@
 import GB.C10.Proofs
+import GB.Generated.Facts
 /-
   C10 — property theorems: gRPC outcomes map to the right HTTP status and a decodable error body.
   Theorems only (plus non-vacuity examples); helper lemmas live in Proofs.lean.
@@ -9,6 +10,29 @@ import GB.C10.Proofs
   correspondence run checks those hypotheses on the real marshaler in every case.
 -/
 open GB GB.C10
+
+/-! ### facts tie: what the sources say today (regenerated on every run by extract/c10.go) -/
+
+/-- The switch of the pinned grpc-gateway's `runtime.HTTPStatusFromCode` (read from the module cache with go/ast)
+    gives, row by row, the model's table — for all 17 codes; it has no other rows and its default is 500. -/
+theorem C10_facts_gateway_table :
+    (∀ c, c < 17 → generatedStatus GB.Generated.c10GatewayTable c = some (httpStatusFromCode c)) ∧
+    GB.Generated.c10GatewayTable.length = 17 ∧
+    GB.Generated.c10GatewayDefault = "StatusInternalServerError" := by decide
+
+/-- Constants of webbridge.go: 499 for a cancelled request, the headers of the plain-text fallback. -/
+theorem C10_facts_constants :
+    GB.Generated.c10HttpStatusCanceled = httpStatusCanceled ∧
+    GB.Generated.c10FallbackHeaders = ["text/plain; charset=utf-8", "nosniff"] ∧
+    textPlain = ascii "text/plain; charset=utf-8" := by decide
+
+/-- The model's fallback text is the source's format string applied to (code name, message, transcoding error). -/
+theorem C10_facts_fallback_format (st : St) (terr : Bytes) :
+    fallbackText st terr = sprintfS GB.Generated.c10FallbackFormat.toList [codeName st.code, st.msg, terr] := by
+  have h : GB.Generated.c10FallbackFormat.toList =
+      "unable to transcode response status code = %s desc = %s: %s\n".toList := by decide
+  rw [h]
+  simp [fallbackText, sprintfS, ascii]
 
 /-! ### the status table -/
 
